@@ -28,6 +28,9 @@ type SRec struct {
 
 var srecStore = map[string][]string{}
 
+// srecLocated: some recorded event carried a source location (observed behaviour of enableCaller)
+var srecLocated bool
+
 func (a *SRec) Start() error { return nil }
 func (a *SRec) Stop()        {}
 func (a *SRec) Append(e *log.Event) {
@@ -36,6 +39,9 @@ func (a *SRec) Append(e *log.Event) {
 		id = fmt.Sprint(e.Fields[0].Num)
 	}
 	srecStore[a.Name] = append(srecStore[a.Name], id)
+	if e.File != "" || e.Line != 0 {
+		srecLocated = true
+	}
 }
 func (a *SRec) Write(b []byte) { srecStore[a.Name] = append(srecStore[a.Name], "W:"+string(b)) }
 
@@ -164,6 +170,7 @@ func moScenario(prop string, c moCase, b zzvrt.Bounds) *zzvrt.Scenario {
 				delete(srecStore, k)
 			}
 			rerr = nil
+			srecLocated = false
 		},
 		Opts: zzvrt.RunOpts{Bounds: b},
 		Body: func() {
@@ -175,7 +182,8 @@ func moScenario(prop string, c moCase, b zzvrt.Bounds) *zzvrt.Scenario {
 					log.Info(context.Background(), t, log.Int("id", i))
 				}
 			}
-			enable, _ = log.VerifCallerMode()
+			// observed, not read from private state: did any recorded event carry a source location?
+			enable = srecLocated
 			log.Destroy()
 		},
 		Check: func(x *zzvrt.Exec) (string, []zzvrt.Violation) {
